@@ -45,7 +45,7 @@ ANCHORS = ["txtorcon.torcontrolprotocol:TorControlProtocol._handle_notify",
            "txtorcon.torcontrolprotocol:TorControlProtocol._broadcast_response",
            "txtorcon.torcontrolprotocol:TorControlProtocol._start_command"]
 FLOORS = {"quick": {"evaluations": 1500, "events_completed": 4000, "listener_calls": 3000,
-                    "in_delivery_operations": 300, "setevents_compared": 1500, "listeners_registered_as_bound_methods": 1000, "setevents_refused_by_tor": 100, "equal_but_distinct_listener_pairs": 300,
+                    "in_delivery_operations": 300, "setevents_compared": 1500, "listeners_registered_as_bound_methods": 1000, "setevents_refused_by_tor": 100, "equal_but_distinct_listener_pairs": 300, "twice_registered_listener_deliveries_judged": 150,
                     "reach:txtorcon.torcontrolprotocol:Event.got_update": 2000},
           "thorough": {"evaluations": 40000, "events_completed": 100000, "listener_calls": 80000,
                        "in_delivery_operations": 8000}}
@@ -121,6 +121,9 @@ class Harness(ctl.Session):
         self.ops = sorted(case.get("ops", []), key=lambda o: o["at"])
         self.listeners = {}
         self.flags_seen = set()
+        self.was_dup = set()            # lids registered twice (same callable, same name)
+        self.dup_max_calls = {}         # lid -> most calls seen for one event while registered twice
+        self.dup_checks = 0
 
     def ev_text(self, j):
         e = self.evspecs[j]
@@ -148,6 +151,15 @@ class Harness(ctl.Session):
                 self.bound_method_listeners = getattr(self, "bound_method_listeners", 0) + 1
         except Exception as e:
             self.exceptions.append(("add_event_listener", self.chunk_no, repr(e)))
+        if behaviour == "dup":
+            # the very same callable is registered a second time for the name ("may be called
+            # multiple times for the same event"): two registrations, removed one at a time
+            self.model[name].append(l)
+            self.was_dup.add(l.lid)
+            try:
+                self.aud.watch(self.proto.add_event_listener(name, l.cb()), "add-listener")
+            except Exception as e:
+                self.exceptions.append(("add_event_listener", self.chunk_no, repr(e)))
         return l
 
     def remove(self, l):
@@ -209,6 +221,9 @@ class Harness(ctl.Session):
             op = self.ops.pop(0)
             if op["op"] == "add":
                 self.add(op["name"], op.get("behaviour", "ok"), op.get("arg", 0))
+            elif op["op"] == "remove-dup":
+                for l in [l for ls in self.model.values() for l in ls if l.lid in self.was_dup][:1]:
+                    self.remove(l)
             else:
                 live = [l for ls in self.model.values() for l in ls if l.eq_group is None]
                 if live:
@@ -302,6 +317,8 @@ class Harness(ctl.Session):
             icls = "single-line-event-without-arguments"
         elif any(self.listeners[l].behaviour == "raise" for l in sn["expected"]):
             icls = "listener-raises"
+        elif any(l in self.was_dup for l in sn["expected"]):
+            icls = "same-callable-registered-twice"
         else:
             icls = "%s-form" % e["form"]
         sn["icls"] = icls
@@ -311,8 +328,30 @@ class Harness(ctl.Session):
         per = {}
         for (lid, jj, payload, t) in new_calls:
             per.setdefault(lid, []).append((jj, payload))
+        handled = set()
         for lid in sn["expected"]:
+            if lid in handled:
+                continue
+            handled.add(lid)
             got = per.pop(lid, [])
+            k = sn["expected"].count(lid)
+            if k > 1:
+                # registered k times: whether that means k deliveries or one is not stated; at least
+                # one and at most k, each with the exact payload
+                self.dup_checks += 1
+                self.dup_max_calls[lid] = max(self.dup_max_calls.get(lid, 0), len(got))
+                if not 1 <= len(got) <= k:
+                    self.problems.append(("listener-missed-event" if not got else "listener-called-twice", icls,
+                                          {"event": j, "listener": lid, "calls": len(got), "registrations": k}))
+                elif any(g[1] not in accept for g in got):
+                    self.problems.append(("payload-mismatch", icls, {"event": j, "got": got[0][1], "want": sorted(accept)[0]}))
+                continue
+            if lid in self.was_dup:
+                self.dup_checks += 1
+                if len(got) == 0 and self.dup_max_calls.get(lid, 0) <= 1:
+                    # one of two registrations was removed and no event was ever delivered twice:
+                    # consistent with registrations being a set - not judged
+                    continue
             if lid in sn["removed_by_other"] and len(got) == 0:
                 # it WAS registered when the event arrived ("to every listener registered for that
                 # event name at that moment"): being unsubscribed by another listener during the
@@ -350,6 +389,7 @@ def gen_case(rnd, edge=False):
     for k in range(rnd.choice([0, 0, 1, 2])):
         cmds.append({"cmd": "LCMD%d x" % k, "perline": rnd.random() < 0.3, "reply": gen.reply(rnd),
                      "when": ("listener",)})
+    dup_name = None
     names = rnd.sample(NAMES, rnd.randint(1, 4))
     if rnd.random() < 0.4:
         names = rnd.choice([["STREAM", "STREAM_BW"], ["CIRC", "CIRC_MINOR", "CIRC_BW"], ["HS_DESC", "HS_DESC_CONTENT"],
@@ -362,6 +402,11 @@ def gen_case(rnd, edge=False):
         # two distinct listener objects that compare equal, both registered for one name (never removed)
         n = rnd.choice(names)
         initial += [{"name": n, "behaviour": "eq", "arg": 0}, {"name": n, "behaviour": "eq", "arg": 1}]
+        if rnd.random() < 0.5:
+            # ... and one callable registered twice for that name (the pair keeps the name subscribed
+            # whatever happens to the two registrations)
+            initial.append({"name": n, "behaviour": "dup", "arg": 0})
+            dup_name = n
     rnd.shuffle(initial)
     events = []
     nev = rnd.choice([1, 2, 3, 4, 6, 8])
@@ -385,6 +430,12 @@ def gen_case(rnd, edge=False):
                         "arg": rnd.randint(0, 7), "at": rnd.randint(0, total)})
         else:
             ops.append({"op": "remove", "arg": rnd.randint(0, 7), "at": rnd.randint(0, total)})
+    if dup_name is not None:
+        for e in events:
+            if rnd.random() < 0.5:
+                e["name"] = dup_name
+        for _ in range(rnd.choice([1, 1, 2, 3])):
+            ops.append({"op": "remove-dup", "at": rnd.randint(0, total)})
     refuse = sorted({rnd.randint(1, 6) for _ in range(rnd.choice([1, 1, 2]))}) if rnd.random() < 0.2 else []
     return {"cmds": cmds, "events": events, "initial": initial, "ops": ops, "chunking": gen.chunking(rnd),
             "refuse_setevents": refuse}
@@ -412,6 +463,7 @@ def run_case(case, rec):
     rec.count("in_delivery_operations", h.in_delivery_ops)
     rec.count("listeners_registered_as_bound_methods", getattr(h, "bound_method_listeners", 0))
     rec.count("setevents_refused_by_tor", getattr(h, "setevents_refused", 0))
+    rec.count("twice_registered_listener_deliveries_judged", h.dup_checks)
     rec.count("equal_but_distinct_listener_pairs", sum(1 for l in h.listeners.values() if l.eq_group is not None) // 2)
     for f in h.flags_seen:
         rec.seen("event_form_x_queue_state", f)
